@@ -158,7 +158,12 @@ class Program:
         if os.environ.get("SA_NO_INLINE") != "1":
             from . import inline
 
-            pr = inline.expand_new_properties({n: m.tree for n, m in self.modules.items()})
+            try:
+                pr = inline.expand_new_properties({n: m.tree for n, m in self.modules.items()})
+                pr += inline.expand_new_expression_methods({n: m.tree for n, m in self.modules.items()})
+            except Exception as e:
+                pr = []
+                self.expansion_errors.append(f"<program>: {type(e).__name__}: {e}")
             if pr:
                 self.inlined.setdefault("<properties>", []).extend(pr)
         if self.inlined:
